@@ -54,6 +54,12 @@ pub fn run_plan(p: &Plan) -> RunOut {
         (Shape::PlainKey, 8, 8) => go!(PKey, SV, 8, 8),
         (Shape::PlainVal, 3, 5) => go!(SK, PVal, 3, 5),
         (Shape::PlainVal, 8, 8) => go!(SK, PVal, 8, 8),
+        (Shape::PlainBoth, 4, 4) => go!(PKey, PVal, 4, 4),
+        (Shape::Small, 4, 6) => go!(SK, SV, 4, 6),
+        (Shape::Small, 32, 7) => go!(SK, SV, 32, 7),
+        (Shape::Boxed, 16, 2) => go!(BK, BV, 16, 2),
+        (Shape::Large, 1, 4) => go!(LK, LV, 1, 4),
+        (Shape::ZstVal, 0, 1) => go!(SK, ZVal, 0, 1),
         (s, n, m) => panic!("no executor instance for shape {s:?} with capacities ({n}, {m})"),
     }
 }
